@@ -910,3 +910,107 @@ Proof.
   destruct (mo_step_solo _ _ _ _ HM HI) as [HI' HL]. rewrite HL. cbn [orb].
   apply IH; auto. eapply mo_step_shape; eauto.
 Qed.
+
+(* ------------------------------------------------------------------ sorting *)
+Definition leb_rel (a b : bytes) : Prop := ltb b a = false.
+
+Lemma sorted_nodup_ext (l1 : list bytes) : forall l2,
+  StronglySorted leb_rel l1 -> StronglySorted leb_rel l2 -> NoDup l1 -> NoDup l2 ->
+  (forall x, In x l1 <-> In x l2) -> l1 = l2.
+Proof.
+  induction l1 as [|x l1 IH]; intros [|y l2] S1 S2 N1 N2 HE.
+  - reflexivity.
+  - exfalso. apply (proj2 (HE y)). now left.
+  - exfalso. apply (proj1 (HE x)). now left.
+  - inversion S1 as [|? ? S1' F1]; subst. inversion S2 as [|? ? S2' F2]; subst.
+    inversion N1 as [|? ? Nx N1']; subst. inversion N2 as [|? ? Ny N2']; subst.
+    rewrite Forall_forall in F1, F2.
+    assert (E : x = y).
+    { destruct (proj1 (HE x) (or_introl eq_refl)) as [E|Hx]; [now symmetry|].
+      destruct (proj2 (HE y) (or_introl eq_refl)) as [E|Hy]; [exact E|].
+      apply ltb_total; [exact (F2 x Hx)|exact (F1 y Hy)]. }
+    subst y. f_equal. apply IH; auto.
+    intros z. split; intros Hz.
+    + destruct (proj1 (HE z) (or_intror Hz)) as [E|H]; [subst z; contradiction|exact H].
+    + destruct (proj2 (HE z) (or_intror Hz)) as [E|H]; [subst z; contradiction|exact H].
+Qed.
+
+Lemma sort_ext l1 l2 : NoDup l1 -> NoDup l2 -> (forall x, In x l1 <-> In x l2) -> Lex.sort l1 = Lex.sort l2.
+Proof.
+  intros N1 N2 HE. apply sorted_nodup_ext; try apply sort_sorted; try now apply sort_nodup.
+  intros x. rewrite !sort_in. apply HE.
+Qed.
+Lemma ktab_eq_ext l1 l2 : NoDup l1 -> NoDup l2 -> (forall x, In x l1 <-> In x l2) -> ktab_eq l1 l2 = true.
+Proof. intros N1 N2 HE. unfold ktab_eq, canon. rewrite (sort_ext l1 l2); auto. apply list_beq_refl_b. Qed.
+
+(* ------------------------------------------------------------------ (d) *)
+Lemma start_mo_inv k c : mshape c = true -> mo_inv k (start c).
+Proof. intros H. split; [exact H|]. intros x []. Qed.
+Lemma rtp_start c : rtp (start c) = rtargets c.
+Proof. reflexivity. Qed.
+
+Lemma rs_elements s k ca cb : mshape ca = true -> mshape cb = true ->
+  forall x, In x (ir_k (rs s k ca cb)) <-> In x k \/ In x (rtargets ca) \/ In x (rtargets cb).
+Proof.
+  intros Ha Hb x. unfold rs. split.
+  - intros H. apply ileave_added in H; auto using start_mo_inv.
+  - intros [H|H].
+    + revert H. apply ileave_grow; auto using start_mo_inv.
+    + apply ileave_reached; auto using start_mo_inv, rs_fuel_enough.
+Qed.
+Lemma rs_nodup s k ca cb : mshape ca = true -> mshape cb = true -> NoDup k ->
+  ir_st (rs s k ca cb) = false -> NoDup (ir_k (rs s k ca cb)).
+Proof. intros Ha Hb ND HS. unfold rs in *. apply ileave_nodup; auto using start_mo_inv. Qed.
+
+Lemma rs_alone_nostack k c : mshape c = true -> exposed c = [] -> NoDup k -> NoDup (targets c) ->
+  ir_st (rs [] k c []) = false.
+Proof.
+  intros HS HE ND NT. unfold rs. apply ileave_alone_nostack; auto.
+  split; [exact ND|]. split; [exact NT|]. cbn [start pc_code]. rewrite HE. intros t [].
+Qed.
+
+Lemma serial_ab_mo k ca cb : mshape ca = true -> mshape cb = true ->
+  exposed ca = [] -> exposed cb = [] -> NoDup k -> NoDup (targets ca) -> NoDup (targets cb) ->
+  NoDup (serial_ab k ca cb) /\
+  forall x, In x (serial_ab k ca cb) <-> In x k \/ In x (rtargets ca) \/ In x (rtargets cb).
+Proof.
+  intros Ha Hb Ea Eb ND Na Nb. rewrite serial_ab_rs.
+  assert (Hn : mshape [] = true) by reflexivity.
+  pose proof (rs_alone_nostack k ca Ha Ea ND Na) as S1.
+  pose proof (rs_nodup [] k ca [] Ha Hn ND S1) as N1.
+  pose proof (rs_alone_nostack _ cb Hb Eb N1 Nb) as S2.
+  split; [now apply rs_nodup|].
+  intros x. rewrite (rs_elements [] _ cb [] Hb Hn), (rs_elements [] k ca [] Ha Hn). cbn [rtargets In]. tauto.
+Qed.
+
+Theorem mount_mount_no_stack_serial_gen : forall s k ca cb,
+  mshape ca = true -> mshape cb = true -> exposed ca = [] -> exposed cb = [] ->
+  NoDup k -> NoDup (targets ca) -> NoDup (targets cb) ->
+  tr_stacked (run_trace (run_sched s k ca cb)) = false ->
+  ktab_eq (run_final (run_sched s k ca cb)) (serial_ab k ca cb) = true /\
+  ktab_eq (run_final (run_sched s k ca cb)) (serial_ab k cb ca) = true.
+Proof.
+  intros s k ca cb Ha Hb Ea Eb ND Na Nb. rewrite run_final_rs, run_trace_rs. cbn [tr_stacked]. intros HS.
+  pose proof (rs_nodup s k ca cb Ha Hb ND HS) as NF.
+  destruct (serial_ab_mo k ca cb Ha Hb Ea Eb ND Na Nb) as [N1 E1].
+  destruct (serial_ab_mo k cb ca Hb Ha Eb Ea ND Nb Na) as [N2 E2].
+  split; apply ktab_eq_ext; auto; intros x; rewrite (rs_elements s k ca cb Ha Hb), ?E1, ?E2; tauto.
+Qed.
+
+(* the form asked for: codes of IProbe / IMountIf only, both starting with IProbe *)
+Definition pm_instr (i : instr) : bool := match i with IProbe | IMountIf _ _ => true | _ => false end.
+Definition pm_code (c : list instr) : bool := forallb pm_instr c.
+Lemma pm_code_mshape c : pm_code c = true -> mshape c = true.
+Proof.
+  unfold pm_code, mshape. rewrite !forallb_forall. intros H i Hi. specialize (H i Hi). now destruct i.
+Qed.
+
+Theorem mount_mount_no_stack_serial : forall s k ca cb,
+  pm_code (IProbe :: ca) = true -> pm_code (IProbe :: cb) = true ->
+  NoDup k -> NoDup (targets (IProbe :: ca)) -> NoDup (targets (IProbe :: cb)) ->
+  tr_stacked (run_trace (run_sched s k (IProbe :: ca) (IProbe :: cb))) = false ->
+  ktab_eq (run_final (run_sched s k (IProbe :: ca) (IProbe :: cb))) (serial_ab k (IProbe :: ca) (IProbe :: cb)) = true /\
+  ktab_eq (run_final (run_sched s k (IProbe :: ca) (IProbe :: cb))) (serial_ab k (IProbe :: cb) (IProbe :: ca)) = true.
+Proof.
+  intros s k ca cb Ha Hb. apply mount_mount_no_stack_serial_gen; auto using pm_code_mshape.
+Qed.
